@@ -173,6 +173,7 @@ struct World {
   vector<CfgDevice*> devs;
   vector<PortRec> ports;
   std::map<int, VOut*> vouts;      // the output mocks (entry removed when the port is deleted)
+  set<unsigned int> seen;          // universe numbers that were ever in the store
   vector<const ola::Port*> orig;   // every port ever created (to name stale broker keys)
   vector<string> port_ids;         // UniqueId of every port
   std::map<unsigned int, ola::Client*> clients;
@@ -273,6 +274,40 @@ struct World {
       if (!p) { s += "X"; continue; }
       s += vh::str(static_cast<int>(p->GetPriority())) + "/" +
            (p->GetPriorityMode() == ola::PRIORITY_MODE_INHERIT ? "i" : "s");
+    }
+    return s;
+  }
+
+  // "" -> 0, "n<k>" -> k, the constructor's default "Universe <n>" -> U<n>
+  static string name_s(const string &n) {
+    if (n.empty()) return "0";
+    if (n.compare(0, 9, "Universe ") == 0) return "U" + n.substr(9);
+    return n.substr(1);
+  }
+
+  // current settings of the universes in the store, and the saved ones (preferences) of every number
+  // that was ever in the store
+  string settings_s() {
+    vector<Universe*> unis;
+    store.GetList(&unis);
+    std::map<unsigned int, Universe*> byid;
+    for (size_t i = 0; i < unis.size(); i++) { byid[unis[i]->UniverseId()] = unis[i]; seen.insert(unis[i]->UniverseId()); }
+    string s;
+    for (std::map<unsigned int, Universe*>::iterator it = byid.begin(); it != byid.end(); ++it) {
+      if (!s.empty()) s += ",";
+      s += vh::str(it->first) + ":" + name_s(it->second->Name()) + "/" +
+           (it->second->MergeMode() == Universe::MERGE_HTP ? "h" : "l");
+    }
+    return s;
+  }
+  string saved_s() {
+    string s;
+    for (set<unsigned int>::iterator it = seen.begin(); it != seen.end(); ++it) {
+      string key = "uni_" + vh::str(*it);
+      if (!prefs.HasKey(key + "_merge")) continue;
+      if (!s.empty()) s += ",";
+      s += vh::str(*it) + ":" + name_s(prefs.GetValue(key + "_name")) + "/" +
+           (prefs.GetValue(key + "_merge") == "HTP" ? "h" : "l");
     }
     return s;
   }
@@ -517,6 +552,25 @@ string handle(const string &payload) {
         r = w.dm->UnregisterDevice(static_cast<const ola::AbstractDevice*>(w.devs[d])) ? "1" : "0";
     } else if (o == "NA") {
       w.dm->UnregisterAllDevices();
+    } else if (o == "DL") {
+      // UniverseStore::DeleteAll in mid-history; only meaningful while no port is patched
+      bool patched = false;
+      for (size_t i = 0; i < w.ports.size(); i++)
+        if (w.ports[i].port() && w.ports[i].port()->GetUniverse()) patched = true;
+      if (!patched) {
+        w.prefs.saved.clear();
+        w.store.DeleteAll();
+        vector<unsigned long long> sv = w.prefs.saved;
+        std::sort(sv.begin(), sv.end());
+        r = "saved:" + join(sv, ".");
+      }
+    } else if (o == "SN" || o == "SM") {
+      Universe *u = w.store.GetUniverse(vh::num(a[1]));
+      if (u) {
+        if (o == "SN") u->SetName(vh::num(a[2]) ? "n" + a[2] : string(""));
+        else u->SetMergeMode(vh::num(a[2]) ? Universe::MERGE_HTP : Universe::MERGE_LTP);
+        r = "1";
+      }
     } else if (o == "A") {
       // Device::AddPort with a NEW port object that re-uses the id (and direction) of port a[1]
       unsigned int pi = vh::num(a[1]);
@@ -603,14 +657,24 @@ string handle(const string &payload) {
     out += ";r" + vh::str(k) + "=" + r + ";d" + vh::str(k) + "=" + w.dump() +
            ";c" + vh::str(k) + "=" + w.cands() + ";b" + vh::str(k) + "=" + w.broker_s() +
            ";f" + vh::str(k) + "=" + w.prefs_s() + ";p" + vh::str(k) + "=" + w.prio_s() +
-           ";t" + vh::str(k) + "=" + w.routes_s() + ";q" + vh::str(k) + "=" + w.pend_s();
+           ";t" + vh::str(k) + "=" + w.routes_s() + ";q" + vh::str(k) + "=" + w.pend_s() +
+           ";n" + vh::str(k) + "=" + w.settings_s() + ";v" + vh::str(k) + "=" + w.saved_s();
   }
   return out;
 }
 }  // namespace
 
+// Every case runs at log level DEBUG with a destination that consumes the lines: the operands of every
+// OLA_DEBUG/INFO/WARN statement are evaluated, so ASan sees reads that only logging performs.
+class ConsumingDestination : public ola::LogDestination {
+ public:
+  ConsumingDestination() : bytes(0) {}
+  void Write(ola::log_level, const std::string &line) { bytes += line.size(); }
+  size_t bytes;
+};
+
 int main(int argc, char **argv) {
-  ola::InitLogging(ola::OLA_LOG_NONE, ola::OLA_LOG_NULL);
+  ola::InitLogging(ola::OLA_LOG_DEBUG, new ConsumingDestination());
   // cases take well under a millisecond; the generous watchdog only guards against a stalled machine
   return vh::run(argc, argv, handle, 180);
 }
